@@ -20,7 +20,7 @@ rsync -a --exclude .git "$REPO/" "$S/repo/"
 (cd "$S/repo" && go build -o "$S/lox" ./cmd/lox)
 rc=0
 for d in internal/parser examples/calc examples/jsonc examples/bolox; do
-  (cd "$S/repo/$d" && time "$S/lox" .) 2>&1 | grep real || true
+  if ! (cd "$S/repo/$d" && "$S/lox" .) >"$S/out.txt" 2>&1; then echo "LOX FAILED on $d:"; cat "$S/out.txt"; rc=1; fi
   for f in base.gen.go lexer.gen.go parser.gen.go; do
     if ! cmp -s "$S/repo/$d/$f" "$REPO/$d/$f"; then echo "DIFF $d/$f"; rc=1; fi
   done
